@@ -103,7 +103,12 @@ fn one_sequence(rep: &mut Report, sub: &'static str, case: u64, variant: usize, 
                 if let H::Concrete(r) = &handles[h] {
                     let c = r.clone();
                     trace.push_str(&format!("to_dyn({}) ", h));
-                    match catch(|| to_dyn!(Tr, c)) {
+                    // half of the time the macro argument is an expression with a side effect (a slot that is emptied by
+                    // reading it): a macro that evaluates its argument twice converts the wrong thing or panics
+                    let side_effect = rng.chance(0.5);
+                    let mut slot = Some(c.clone());
+                    let conv = if side_effect { catch(|| to_dyn!(Tr, slot.take().unwrap())) } else { catch(|| to_dyn!(Tr, c)) };
+                    match conv {
                         Ok(d) => {
                             rep.tally(&format!("to_dyn_ok/{}", name));
                             if !macro_lists(variant) { rep.tally("to_dyn_unlisted_variant_worked"); }
